@@ -389,7 +389,7 @@ def check(ctx, run):  # noqa: F811
     precision_rule(ctx, run)
 
 
-def precision_rule(ctx, run):
+def precision_rule(ctx, run, rule="C05.R9", methods=("forward", "cash")):
     """R9: a target or a level given as a Python number is used at the precision of the sample.  `torch.as_tensor(target)` of a float is a
     float32 tensor: subtracted from a float64 profit-loss it keeps the result float64 but the target was rounded to 24 bits first, so the
     value is the risk measure of input - float32(target)."""
@@ -397,13 +397,13 @@ def precision_rule(ctx, run):
     prog, interp = ctx.prog, ctx.interp
     x = W.tensor("x")
     tgt = W.fl("target")
-    run.require("C05.R9", 14)
+    run.require(rule, 6 * len(methods) + 2)
     mods = {"EntropicRiskMeasure": dict(a=W.fl("a")), "EntropicLoss": dict(a=W.fl("a")), "IsoelasticLoss": dict(a=W.fl("a")),
             "ExpectedShortfall": dict(p=W.fl("p")), "QuadraticCVaR": dict(lam=W.fl("lam")), "OCE": dict(utility=Sym("u", ("callable",)), w=W.tensor("w"))}
     for cls, attrs in mods.items():
         if L + cls not in prog.classes:
             raise AnalysisError(f"anchor vanished: {cls}")
-        for meth in ("forward", "cash"):
+        for meth in methods:
             fi = prog.lookup_method(L + cls, meth)
             if fi is None:
                 raise AnalysisError(f"anchor vanished: {cls}.{meth}")
@@ -414,9 +414,9 @@ def precision_rule(ctx, run):
             if not res:
                 raise AnalysisError(f"{cls}.{meth}: no analysable path with a scalar target")
             bad = lossy(res, None)
-            run.oblige("C05.R9", f"{cls}.{meth}: scalar target and parameters keep the precision of the sample", not bad, "; ".join(bad) or "no Python float is packed into a default-dtype tensor")
+            run.oblige(rule, f"{cls}.{meth}: scalar target and parameters keep the precision of the sample", not bad, "; ".join(bad) or "no Python float is packed into a default-dtype tensor")
             if bad:
-                run.fail(Finding("C05.R9", fi.qualname, "; ".join(bad)[:300], "a Python float is rounded to float32 before it meets the (possibly float64) sample: "
+                run.fail(Finding(rule, fi.qualname, "; ".join(bad)[:300], "a Python float is rounded to float32 before it meets the (possibly float64) sample: "
                                  "the value is the risk measure of another target / level", file=str(prog.modules[fi.module].path), line=fi.node.lineno))
     for fn, kw in (("exp_utility", dict(a=W.fl("a"))), ("isoelastic_utility", dict(a=W.fl("a"))), ("entropic_risk_measure", dict(a=W.fl("a"))),
                    ("expected_shortfall", dict(p=W.fl("p"), dim=0)), ("value_at_risk", dict(p=W.fl("p"), dim=0)), ("quadratic_cvar", dict(lam=W.fl("lam"), dim=0))):
@@ -428,7 +428,7 @@ def precision_rule(ctx, run):
         if not res:
             raise AnalysisError(f"{fn}: no analysable path")
         bad = lossy(res, None)
-        run.oblige("C05.R9", f"{fn}: scalar parameters keep the precision of the sample", not bad, "; ".join(bad) or "no Python float is packed into a default-dtype tensor")
+        run.oblige(rule, f"{fn}: scalar parameters keep the precision of the sample", not bad, "; ".join(bad) or "no Python float is packed into a default-dtype tensor")
         if bad:
-            run.fail(Finding("C05.R9", fi.qualname, "; ".join(bad)[:300], "a Python float parameter is rounded to float32 before it meets the sample",
+            run.fail(Finding(rule, fi.qualname, "; ".join(bad)[:300], "a Python float parameter is rounded to float32 before it meets the sample",
                              file=str(prog.modules[fi.module].path), line=fi.node.lineno))
